@@ -352,7 +352,27 @@ def main(tier):
         for c in cands:
             accounted.add(c)
         stats["classes"] += 1
-        check_class(rep, py, mm, cn, cands[0], mm.lit_props(lt), "literal", stats)
+        # several anonymous literals may share their member NAMES (and so this lookup key) while their
+        # members differ in type: the literal is matched with the candidate class that fits it
+        class _Trial:
+            def __init__(self):
+                self.n = 0
+
+            def fail(self, *a, **k):
+                self.n += 1
+
+            def inconc(self, *a, **k):
+                pass
+
+        best = cands[0]
+        if len(cands) > 1:
+            for c in cands:
+                tr = _Trial()
+                check_class(tr, py, mm, cn, c, mm.lit_props(lt), "literal", dict(stats))
+                if tr.n == 0:
+                    best = c
+                    break
+        check_class(rep, py, mm, cn, best, mm.lit_props(lt), "literal", stats)
     # nothing extra
     extra = []
     for name, obj in T.ALL_TYPES_MAP.items():
